@@ -23,7 +23,8 @@
         came back, eq: read file == written file; then the accesses hist2 were performed on the file that was
         read, it was written again and read: cout2, eq2.
    Every chain / compress / compressx event has a field rep: the memory representation of the input array
-   (BcifEncoding.Reps); the judgement does not depend on it.
+   (BcifEncoding.Reps); every compress / compressx event a field level: the container compress() was called on
+   (BcifEncoding.Levels; T is the tolerance that was passed to that call).  The judgement depends on neither.
 
    Printed, never stopping:
      <<"MISMATCH", tid, i, "known" | "unknown", kb, expected outcome>>
@@ -62,7 +63,7 @@ JudgeChain(e, i) ==
                            THEN "known" ELSE "unknown", kb \cup kbr, exp>>)
 
 JudgeCompress(e, i) ==
-  IF ~(Dom_Array(e.A) /\ e.rep \in RepsOf(e.A)) THEN PrintT(<<"NOTDOM", tid, i>>)
+  IF ~(Dom_Array(e.A) /\ e.rep \in RepsOf(e.A) /\ e.level \in Levels) THEN PrintT(<<"NOTDOM", tid, i>>)
   ELSE LET ok == /\ e.oc = "ok" /\ Len(e.B.v) = Len(e.A.v)
                  /\ IF e.A.t \in FloatTypes
                     THEN e.B.t \in FloatTypes /\ \A j \in DOMAIN e.A.v : AcceptRel(e.T, e.A.t, e.A.v[j], e.B.v[j])
@@ -74,7 +75,8 @@ JudgeCompress(e, i) ==
                   PrintT(<<"MISMATCH", tid, i, IF kb # {} /\ e.oc = "ok" THEN "known" ELSE "unknown", kb, "ok">>)
 
 JudgeCompressX(e, i) ==
-  IF ~(Dom_SciArray(e.A) /\ Dom_SciTol(e.A.t, e.T) /\ e.rep \in RepsOf(e.A)) THEN PrintT(<<"NOTDOM", tid, i>>)
+  IF ~(Dom_SciArray(e.A) /\ Dom_SciTol(e.A.t, e.T) /\ Dom_SciDeepTol(e.A, e.T) /\ e.rep \in RepsOf(e.A)
+       /\ e.level \in Levels) THEN PrintT(<<"NOTDOM", tid, i>>)
   ELSE IF ~Dom_SciDecisive(e.A, e.T) THEN PrintT(<<"OUTDOM", tid, i>>)
   ELSE LET t == e.A.t
            nodec == SciExhausted(e.A, e.T)     \* no decimals reach the tolerance: the array is kept losslessly
